@@ -74,7 +74,8 @@ func (rows *leveldbRows) Close() {
 }
 
 func (rows *leveldbRows) ascendRange(rng *util.Range, iterator RowIterator) {
-	it := rows.db.NewIterator(rng, nil)
+	db := rows.db
+	it := db.NewIterator(rng, nil)
 	defer it.Release()
 	for ok := it.First(); ok; ok = it.Next() {
 		if !iterator(fromProto(it.Value())) {
@@ -82,6 +83,13 @@ func (rows *leveldbRows) ascendRange(rng *util.Range, iterator RowIterator) {
 		}
 	}
 	if err := it.Error(); err != nil {
+		if rows.db != db {
+			// Clear replaced the database while the callback had given up the table lock (a
+			// scan between two response messages). Rows still in the write buffer stay readable
+			// through the iterator, rows in table files do not ("reader released"): either way
+			// the rows this iteration was walking are gone, so it simply ends here.
+			return
+		}
 		panic(err)
 	}
 }
